@@ -40,6 +40,7 @@ type MockMQ struct {
 	nextK   int
 	closed  bool
 	onClose func(error)
+	drain   []Step // receive buffer handed over by the next Close
 	qsubj   map[string]string // query subject -> symbolic resource name
 }
 
@@ -69,9 +70,27 @@ func (m *MockMQ) SetClosedHandler(cb func(error)) {
 	m.w.mu.Unlock()
 }
 
-// Close implements mq.Client. Pending requests are dropped: no callback is
-// made after Close returns.
+// setDrain sets what the client still holds in its receive buffer when it is
+// closed next: like the NATS adapter, Close hands that over before it returns.
+func (m *MockMQ) setDrain(d []Step) {
+	m.w.mu.Lock()
+	m.drain = d
+	m.w.mu.Unlock()
+}
+
+// Close implements mq.Client. What is still buffered is delivered first;
+// pending requests are dropped: no callback is made after Close returns.
 func (m *MockMQ) Close() {
+	m.w.mu.Lock()
+	ds := m.drain
+	m.drain = nil
+	m.w.mu.Unlock()
+	for _, d := range ds {
+		if d.Op == "event" || d.Op == "reply" {
+			ok := m.w.do(d)
+			m.w.add(Rec{"e": "drained", "op": d.Op, "done": ok})
+		}
+	}
 	m.w.mu.Lock()
 	m.closed = true
 	m.pending = nil
@@ -285,8 +304,11 @@ func (m *MockMQ) lose(err error) {
 	m.w.mu.Lock()
 	cb := m.onClose
 	m.closed = true
-	m.pending = nil
-	m.subs = map[string]*mqSub{}
+	if len(m.drain) == 0 {
+		// (otherwise the receive buffer is handed over, and everything dropped, by Close)
+		m.pending = nil
+		m.subs = map[string]*mqSub{}
+	}
 	m.w.mu.Unlock()
 	if cb != nil {
 		go cb(err)
